@@ -466,10 +466,19 @@ class Exec:
             if isinstance(b, Agg) and (b.kind == 'array' or b.name == '~vec'):
                 return b.fields[-p[2]] if p[3] else b.fields[p[2]]
             raise NotEncoded(f'const index into {b!r}')
+        if k == 'subslice':
+            # `&s[a..]` / `&s[a..len-b]` of a slice pattern: the sub-sequence (read-only view)
+            b = self.read(st, fid, p[1])
+            if isinstance(b, Agg) and (b.kind == 'array' or b.name == '~vec'):
+                a, e = p[2], p[3]
+                if a + (e if p[4] else 0) > len(b.fields):
+                    raise NotEncoded(f'subslice [{a}:{e}] of a sequence of {len(b.fields)}')
+                return Agg('struct', '~vec', None, list(b.fields[a:len(b.fields) - e] if p[4] or e == 0 else b.fields[a:e]))
+            raise NotEncoded(f'subslice of {b!r}')
         if k == 'index':
             b = self.read(st, fid, p[1])
             i = self.read(st, fid, ('local', p[2]))
-            if isinstance(b, Agg) and b.kind == 'array' and isinstance(i, IntV):
+            if isinstance(b, Agg) and (b.kind == 'array' or b.name == '~vec') and isinstance(i, IntV):
                 c = self.concrete(i.t)
                 if c is not None:
                     return b.fields[c]
@@ -573,6 +582,12 @@ class Exec:
             return self.const_int(int(m.group(1)), m.group(2))
         if tok == 'true' or tok == 'false':
             return BoolV(z3.BoolVal(tok == 'true'))
+        m = re.match(r'^((?:std|core)::(?:result::Result|option::Option)::<.*>)::(Ok|Err|Some)\((.*)\)$', tok)
+        if m:
+            # a constant std enum value with a constant payload: `Result::<Infallible, fmt::Error>::Err(std::fmt::Error)`
+            inner = m.group(3).strip()
+            pay = Agg('struct', inner, None, []) if re.match(r'^[\w:]+$', inner) and not re.match(r'^-?\d', inner) and inner not in ('true', 'false') else self.constant(st, inner)
+            return Agg('variant', m.group(1), m.group(2), [pay])
         m = re.match(r'^(?:(?:core|std)::num::<impl )?(\w+)>?::(MIN|MAX|BITS)$', tok)
         if m and m.group(1) in INT_TY:
             lo, hi = rng(m.group(1))
